@@ -295,7 +295,7 @@ def _build_evaluator(
         elif op == "/":
             return lambda x, lf=left_fn, rf=right_fn: lf(x) / rf(x)
         elif op == "**":
-            return lambda x, lf=left_fn, rf=right_fn: lf(x) ** rf(x)
+            return lambda x, lf=left_fn, rf=right_fn: np.float_power(lf(x), rf(x))
         else:
             raise UnknownOperatorError(
                 operator=op,
@@ -483,7 +483,7 @@ def _build_evaluator_iterative(
                     )
                 elif op == "**":
                     result_stack.append(
-                        lambda x, lf=left_fn, rf=right_fn: lf(x) ** rf(x)
+                        lambda x, lf=left_fn, rf=right_fn: np.float_power(lf(x), rf(x))
                     )
                 else:
                     raise UnknownOperatorError(
